@@ -1,3 +1,20 @@
-import GenlmModel.Model.Basic
+import Batteries.Tactic.Alias
+import GenlmModel.Proofs.SepStart
+import GenlmModel.Proofs.Tab
+import GenlmModel.Proofs.Norm
+import GenlmModel.Proofs.TrimSem
+/-! # C06 — transformations preserve the weighted language
+Level identities / cofinality statements about the mirror models, every commutative semiring. -/
 namespace Genlm.Props.C06
+alias trim_preserves := Genlm.trim_preserves
+alias cotrim_preserves := Genlm.cotrim_preserves
+alias trim_preserves_at_reachable := Genlm.trim_preserves_at
+alias separate_start_preserves := Genlm.separateStart_preserves
+alias separate_start_level_identity := Genlm.sepStart_spec
+/-- unfolding a rule: the two grammars bound each other level-wise (so they have the same limit) -/
+alias unfold_preserves := Genlm.unfold_preserves
+alias unfold_limit := Genlm.unfold_limit
+alias injective_renaming_level_identity := Genlm.WN_rename
+alias zero_rules_irrelevant := Genlm.WN_dropZero
+alias rule_order_irrelevant := Genlm.WN_perm
 end Genlm.Props.C06
